@@ -195,7 +195,7 @@ def main():
                          "input_bound": "all strings over the program's byte classes up to a per-program length (total <= %d) + %d inputs guided by the reading (length <= 24)" % (budget, guided)})
     # combinator-level run-time contracts (clauses named C01-*) on corpus + generated programs + all statement pairs
     from . import _rtcprops as R
-    sel = lambda c: "C01" in c or c in ("DFA.append_after", "OptionalNode.convert", "LoopNode.convert")
+    sel = lambda c: "C01" in c or c.endswith("/frame") or c in ("DFA.append_after", "OptionalNode.convert", "LoopNode.convert")
     R.run_contracts("C01", sel, ["DFA.append_after", "OptionalNode.convert", "LoopNode.convert"], ["dfa"], "join", "", [], rep=rep)
     # proved part (pyvc on the real AST, all action lists / literals): where the front end puts an action - Match.attach, adoption by
     # ActionNode/ActionSinkNode.set_next, the two-step machine of InterruptableActionNode, the literal and `end` builders
